@@ -275,7 +275,7 @@ def run_case(case):
     # "at least one model when the truth is admissible" is not part of the statement: counted in the tally only
     outcome = core.sha(repr((info["n_models"], info["sets"])))
     sample = {"case": case, "models": info["n_models"], "sets": info["sets"][:3],
-              "first_row": selstr.split("\n")[1][:200] if info["n_models"] else ""}
+              "first_row": next((l.strip()[:200] for l in selstr.split("\n") if l.strip()[:1].isdigit() or l.strip()[:1] == "-"), "")}
     o = problem["inverse"]["opts"]
     n = info["n_models"]
     tally = {"models_with_range": n if o["range"] else 0, "models_minimal_option": n if o["minimal"] else 0,
